@@ -172,6 +172,19 @@ func (p *c04) Init(tier string) {
 	}
 	p.subset = append(p.subset, [2]int{0, 5}, [2]int{6, 0})
 	p.bound = 2
+	// one larger pair (17 x 13 rows, every archetype several times): size thresholds in hash tables,
+	// key lists and result buffers
+	big := func(arch []map[string]any, n int, idKey string) []any {
+		rows := []any{}
+		for i := 0; i < n; i++ {
+			row := gq.CloneMap(arch[(i*3+i/4)%len(arch)])
+			row[idKey] = float64(i)
+			rows = append(rows, row)
+		}
+		return rows
+	}
+	p.left = append(p.left, big(la, 17, "id"))
+	p.right = append(p.right, big(ra, 13, "rid"))
 }
 
 func (p *c04) NumCases() int { return len(p.cases) }
@@ -375,7 +388,7 @@ func (p *c04) runSched(r *core.CaseResult, c *c04case, sql string) {
 
 func (p *c04) Meta() core.Meta {
 	return core.Meta{
-		Rule: "one case per (ON expression: 11 single comparisons in both orientations, 16 AND pairs in both orders, 6 OR pairs, 3-conjunct and repeated-column forms; key columns named differently on the two sides) x (14 join kinds: JOIN/LEFT/RIGHT x auto/HASH_JOIN, STRAIGHT_JOIN, each also PARALLEL), run on every pair of tables of <= 2 (thorough 3) rows over 4 archetypes per side (duplicate keys, two string key columns that collide under textual concatenation) and compared as a multiset with the textbook nested-loop join; a representative ON set x all kinds also with the join inside a CTE that is read twice (UNION ALL: the result must be the textbook multiset twice); plus exploration cases: a representative ON set x all kinds on a subset of table pairs under every Go-map iteration order and (PARALLEL) every thread schedule within the deviation bound. non-trivial = the textbook result is a non-empty proper subset of the cross product / more than one execution explored",
+		Rule: "one case per (ON expression: 11 single comparisons in both orientations, 16 AND pairs in both orders, 6 OR pairs, 3-conjunct and repeated-column forms; key columns named differently on the two sides) x (14 join kinds: JOIN/LEFT/RIGHT x auto/HASH_JOIN, STRAIGHT_JOIN, each also PARALLEL), run on every pair of tables of <= 2 (thorough 3) rows over 4 archetypes per side (duplicate keys, two string key columns that collide under textual concatenation) plus one pair of 17 x 13 rows, and compared as a multiset with the textbook nested-loop join; a representative ON set x all kinds also with the join inside a CTE that is read twice (UNION ALL: the result must be the textbook multiset twice); plus exploration cases: a representative ON set x all kinds on a subset of table pairs under every Go-map iteration order and (PARALLEL) every thread schedule within the deviation bound. non-trivial = the textbook result is a non-empty proper subset of the cross product / more than one execution explored",
 		Assumptions: []string{
 			"key columns hold non-NULL values of one scalar kind; ON compares a left column with a right column",
 			"outer rows carry NULL under the other alias; the result is compared as a multiset (order is not fixed by the property)",
